@@ -175,6 +175,9 @@ pub struct Case {
     pub minimal_shim: bool,
     /// enter through `run_on_stream` (the transport is Clone) instead of `run_on`
     pub via_run_on_stream: bool,
+    /// run the same commands over a TLS upgrade (real rustls client inside the transport); the
+    /// observation's output is the plaintext greeting followed by what the client decrypted
+    pub over_tls: bool,
     pub conv: bool,
     pub log_reads: bool,
     /// 0 = derive from input size
@@ -203,6 +206,7 @@ impl Case {
             default_init: false,
             minimal_shim: false,
             via_run_on_stream: false,
+            over_tls: false,
             conv: false,
             log_reads: true,
             budget_ops: 0,
@@ -252,7 +256,56 @@ impl Obs {
     }
 }
 
+/// TLS material shared by every case that asks for `over_tls` (generated once per process).
+pub static TLS_MATERIAL: std::sync::OnceLock<Option<crate::tls::TlsMaterial>> = std::sync::OnceLock::new();
+
+/// The case's commands and scripts over a TLS upgrade. None if TLS material cannot be made or the
+/// TLS harness itself fails (the caller then falls back to the plaintext transport).
+fn run_case_tls(case: &Case) -> Option<Obs> {
+    if case.conv || case.minimal_shim || case.default_init || case.raw_input.is_some() || !case.raw_tail.is_empty() {
+        // shim options and raw inputs the TLS runner does not carry: plaintext
+        return None;
+    }
+    let m = TLS_MATERIAL.get_or_init(|| crate::tls::TlsMaterial::generate().ok()).as_ref()?;
+    let (input, ends) = case.input();
+    let h = hash128(&input).0;
+    let wl = case.write_limit;
+    let c = crate::props::c18::TlsCase {
+        tls13: h & 1 == 0,
+        with_cert: h & 6 == 2,
+        server_mode: if h & 6 == 2 { 4 } else { 0 },
+        user: b"vmon".to_vec(),
+        cmds: case.cmds.clone(),
+        scripts: case.scripts.clone(),
+        first_cut: if h & 8 == 0 { 0 } else { (h >> 8) as usize % 90 },
+        cycle: if h & 16 == 0 { vec![] } else { vec![1 + (h >> 16) as usize % 3000] },
+        write_limit: wl,
+        close_notify: true,
+        raw_limit: None,
+        hs_variant: if h & 64 == 0 { 0 } else { h | 1 },
+        app_override: None,
+        seqs: (1, 2),
+        auth_reject: case.auth_reject,
+        record_per_command: h & 128 == 0,
+    };
+    let o = crate::props::c18::run_tls(m, &c).ok()?;
+    if o.world.client_error.is_some() || o.world.deadlock || o.world.wedged {
+        // a broken TLS layer is C18's to report; here the case is simply run in plaintext
+        return None;
+    }
+    let mut world = World::new(vec![]);
+    world.visible = o.world.greeting_raw.clone();
+    world.visible.extend_from_slice(&o.world.app_in);
+    world.nops = o.world.nops;
+    Some(Obs { outcome: o.outcome, world, log: o.log, ends, kinds: case.kinds(), tls_upgrade_requested: false })
+}
+
 pub fn run_case(case: &Case) -> Obs {
+    if case.over_tls {
+        if let Some(o) = run_case_tls(case) {
+            return o;
+        }
+    }
     let (input, ends) = case.input();
     let kinds = case.kinds();
     let mut world = World::new(input);
